@@ -6,6 +6,35 @@ import sys
 
 sys.path.insert(0, os.path.dirname(os.path.abspath(__file__)))
 sys.path.insert(0, os.path.join(os.environ.get("PYAB_REPO", "/repo"), "src"))     # the tree under test, before any import of the package
+if os.environ.get("C01_FAKE_TIME"):
+    # another moment (and another day of the week, month, year, side of 2038) for anything that asks the clock
+    import time as _time
+    import datetime as _dt
+    _off = float(os.environ["C01_FAKE_TIME"]) - _time.time()
+    _rt, _rtn, _rm, _rmn = _time.time, _time.time_ns, _time.monotonic, _time.monotonic_ns
+    _time.time = lambda: _rt() + _off
+    _time.time_ns = lambda: _rtn() + int(_off * 1e9)
+
+    class _FakeDT(_dt.datetime):
+        @classmethod
+        def now(cls, tz=None):
+            return _dt.datetime.fromtimestamp(_rt() + _off, tz)
+
+        @classmethod
+        def utcnow(cls):
+            return _dt.datetime.utcfromtimestamp(_rt() + _off)
+
+        @classmethod
+        def today(cls):
+            return _dt.datetime.fromtimestamp(_rt() + _off)
+
+    class _FakeDate(_dt.date):
+        @classmethod
+        def today(cls):
+            return _dt.date.fromtimestamp(_rt() + _off)
+    _dt.datetime, _dt.date = _FakeDT, _FakeDate
+if os.environ.get("C01_RECURSION"):
+    sys.setrecursionlimit(int(os.environ["C01_RECURSION"]))
 order = os.environ.get("C01_IMPORT_ORDER", "a")
 if order == "b":
     import pyab_experiment.binning.binning  # noqa
